@@ -360,6 +360,10 @@ int main(void)
 	vf_cls = VF_CLS_SET | VF_CLS_ITEM;
 	real_jwks_item_add(set, old0);
 #endif
+#ifdef FAULT_K
+	vf_alloc_no = 0;                 /* concrete request index from here on */
+	vf_fail_at = FAULT_K;
+#endif
 #if ROUTE == 0
 	ret = jwks_create(text);
 #elif ROUTE == 1
@@ -372,6 +376,25 @@ int main(void)
 	ret = jwks_load_fromfp(set, (FILE *)&parse_calls);
 #else
 	ret = jwks_create_strn(text, 2);
+#endif
+#ifdef FAULT_K
+	/* C17: under a fault the load either fails through its documented channel (NULL, or the
+	 * keyring/item error) or behaves as without the fault; CBMC's pointer checks are on */
+	if (!ret) {
+		PROP(set == NULL, "C17: a load into an existing keyring never loses it");
+		REACHF(vf_faulted, "load failed under the fault");
+		return 0;
+	}
+	if (vf_faulted) {
+		unsigned n_ = (unsigned)jwks_item_count(ret), k_;
+		for (k_ = 0; k_ < 3; k_++) {
+			if (k_ < n_)
+				PROP(jwks_item_get(ret, k_) != NULL, "C17: no NULL item is linked into the keyring");
+		}
+		PROP(n_ == pre + CNT || jwks_error(ret) || jwks_error_any(ret), "C17: a key lost to an allocation fault is reported on the keyring or an item");
+		REACHF(jwks_error(ret), "fault reported on the keyring");
+		return 0;
+	}
 #endif
 	PROP(ret != NULL && (set == NULL || ret == set), "C07: the load functions return the keyring");
 	PROP(parse_calls == 1 && (parse_flags & JSON_DECODE_ANY), "C07: the text is parsed once, any top-level type allowed");
